@@ -1,8 +1,9 @@
 #!/bin/bash
 # Runs every curated seeded change against the quick (or $1) check of the property it breaks, in
 # scratch worktrees (never touches /repo), 4 at a time. Writes /verif/seeded/RESULTS.tsv.
-tier=${1:-quick}; out=/verif/seeded/RESULTS.tsv; tmp=$(mktemp -d)
-ls -d /verif/seeded/C*/ | sort > $tmp/all
+# usage: seed_matrix_scratch.sh [tier] [glob of seed dirs, default C*] [output file]
+tier=${1:-quick}; pat=${2:-C*}; out=${3:-/verif/seeded/RESULTS.tsv}; tmp=$(mktemp -d)
+ls -d /verif/seeded/$pat/ | sort > $tmp/all
 run_slot() {
   slot=$1
   awk -v s=$slot 'NR%4==s' $tmp/all | while read d; do
